@@ -27,40 +27,40 @@ def chk(text, technique, design, note=None):
 
 CORR = " Tie: the executable model and the real code (in-process, -tags verif) are run on the same generated inputs on every run and the canonical dumps are diffed; the profile tables the model uses are regenerated from the live tables by reflection."
 CHECKS.update({
-    "C01": chk("Partial proof. Proved in Lean: the buffered reader model refines consumption from a list for every program and every read schedule (no over-read, fuel-bounded loops), Known()/validateFieldDef rejection lemmas, and kernel-checked well-formedness of the regenerated profile (gen_wf). Not yet proved: the global 'no panic outcome is reachable' theorem (validate_sound) — every Go panic site is an explicit panic outcome of the model and is checked by the correspondence run under recover with a per-case timeout." + CORR,
-               "Lean 4 proof (refinement of buffered reads; decidable profile well-formedness by kernel evaluation) + differential correspondence incl. single-field definition sweep", "6/C01"),
-    "C02": chk("Partial proof. Proved: for every definition base type (enum, byte, (u/s)int8/16/32, z-types, string), both byte orders and every struct-field width the profile allows, parseFitField stores exactly the value the wire bytes denote (two's complement, value-preserving widening) — signed_field_denotes, unsigned_field_denotes, string_field_denotes, widen_signed. The record machine stepItem shares these functions with the byte parser; the framing theorem connecting them is checked by execution (wire op, SPEC=ok) and not yet proved." + CORR,
-               "Lean 4 proof of per-field value semantics + executable record machine + differential correspondence", "6/C02"),
+    "C01": chk("Proof. decode_never_panics: for every profile satisfying the decidable predicate ProfileWF — which the regenerated profile does (gen_wf, kernel evaluation on every run) — every mode (Decode, DecodeHeader, DecodeHeaderAndFileID, CheckIntegrity), every input, package state, option set and read schedule gives a result or an error, never a panic outcome (a Hoare logic over the record-phase programs with the invariant: a File is attached, every stored definition passed validateFieldDef, the byte counter only grows; applyField_good does the reflection case analysis); chained_never_panics for DecodeChained; no over-read (C10). Every loop of the model is structural or fuel-bounded and the fuel is proved never to end the record loop. Modelled, not verified: that the model's panic sites are all of the real code's — checked by the correspondence run under recover with a per-case timeout." + CORR,
+               "Lean 4 proof (weakest-precondition logic over decoder programs, reflection case analysis under a kernel-checked well-formedness predicate) + differential correspondence incl. single-field and size-extreme sweeps", "6/C01"),
+    "C02": chk("Proof. For every definition base type, both byte orders and every struct-field width the profile allows, parseFitField stores exactly the value the wire bytes denote (signed_field_denotes, unsigned_field_denotes, string_field_denotes, widen_signed/unsigned); byte_parser_is_record_machine (Framing): on the serialisation of any list of items that fit the live definitions, the byte-level record loop arrives at exactly the state of the record machine, which applies these functions to each field's own bytes and skips developer fields — so neighbouring fields and messages are undisturbed." + CORR,
+               "Lean 4 proof of per-field value semantics + framing theorem by induction over items + differential correspondence", "6/C02"),
     "C03": chk("Proof: route_spec — folding the container's add over any message sequence leaves in each slot exactly the (expanded) messages of the type the slot holds, in stream order (slice) or the last one (pointer), other types have no effect; common_first; kernel-checked facts over the regenerated tables: RoutersWF, init_rejects (all 256 file-type values), accessor_exact, container_of_type_injective." + CORR,
                "Lean 4 proof by induction over the message list + decide over the regenerated 256-entry tables + differential correspondence of covering interleavings", "6/C03"),
-    "C10": chk("Proof: run_refines — for every program of the three-phase decoder language and every reader (any chunk schedule, data delivered together with the error) the buffered interpreter (model of fill/readFull/io.ReadFull/io.CopyN) returns the outcome of the list-consuming specification run, pulls at least the bytes consumed and never past the end of the data area; corollaries decode_eq_spec, chunk_independent, never_overreads. Exact consumption on success is checked by the harness oracle on every case (theorem pending)." + CORR,
-               "Lean 4 refinement proof (induction over programs and read schedules) + differential correspondence over chunk schedules behind a counting reader", "6/C10"),
-    "C11": chk("Partial proof. Proved: failed buffered reads map to unexpected-EOF / reader error / format error and never to a clean EOF; every early exit of the record phase is an error or panic by construction of the program type; a short trailer is an error; DecodeChained reports every failing decode except a clean end exactly on a file boundary. The all-offsets statement (cut_is_error) is checked exhaustively per run by the harness oracle over every cut and fault offset of the sampled streams; its Lean proof is pending." + CORR,
-               "Lean 4 proof (typed early exits, chained loop lemmas) + exhaustive cut/fault enumeration per stream", "6/C11"),
+    "C10": chk("Proof. run_refines (buffered interpreter = list-consuming specification for every program and reader), chunk_independent, never_overreads, consumes_exactly / decode_consumes_exactly (success ⇒ exactly header + data + 2 bytes consumed and pulled, under any read schedule), decode_ignores_tail, chained_eq_chain_over_bytes (DecodeChained = decoding file after file over the byte list), chained_concat (the chain over a concatenation of valid files is the files decoded one by one), chained_clean_end." + CORR,
+               "Lean 4 refinement proof (induction over programs and read schedules) + accounting lemmas + differential correspondence over chunk schedules behind a counting reader", "6/C10"),
+    "C11": chk("Proof. short_input_never_succeeds / cut_is_error (any stream cut before the end of the frame it declares makes Decode and CheckIntegrity fail, for both ways of ending and any read schedule), header_cut_is_error (every entry point), chained_cut_is_error (DecodeChained never returns silently unless the input ends exactly on a file boundary; a reader error is never swallowed), failed reads map to unexpected-EOF / reader error / format error, early exits are never successes. Partial files returned with the error are compared with the model's on every cut and fault offset by the harness." + CORR,
+               "Lean 4 proof (exact-consumption and conservation lemmas over the specification interpreter, refinement for the buffered run) + exhaustive cut/fault enumeration per stream", "6/C11"),
     "C12": chk("Proof: compressed_rule (5-bit offset with 32 s rollover = tsSpec), compressed_keeps_inv, run_accumulates (any run of compressed records = scan of tsSpec), datetime_decode, explicit_rebases, reference_only_from_timestamp_field, local_wallclock, no_reference_skips — about the functions the decoder model and the record machine call for every time field and compressed header." + CORR,
                "Lean 4 proof (omega on modular arithmetic, induction over offset lists) + differential correspondence of timestamp sequences", "6/C12"),
     "C13": chk("Proof over the record machine: definition_wins, redefinition_is_local, undefined_slot_is_error (both header forms), header_bits (all 256 header bytes), defs_length." + CORR,
                "Lean 4 proof (list update lemmas, decide over 256 header bytes) + differential correspondence of redefinition interleavings", "6/C13"),
-    "C15": chk("Proof: gen_wf — kernel evaluation of the decidable well-formedness predicate over every entry of the regenerated tables (distinct struct index of the Go type the base type/array flag/kind call for, constructor value = that type's invalid value, sizes fit one byte, every struct field named by exactly one entry, known ⇒ type+constructor+row, container members known), with readable projections entry_slot, entry_invalid, known_has_tables, containers_known. The SDK-assignment clause is not checked (no 21.115 workbook offline)." + CORR,
-               "Lean 4 decide +kernel over tables regenerated by reflection on every run + differential correspondence of every profile entry", "6/C15"),
+    "C15": chk("Proof: gen_wf — kernel evaluation of the decidable well-formedness predicate over every entry of the regenerated tables (distinct struct index of the Go type the base type/array flag/kind call for, constructor value = that type's invalid value, sizes fit one byte, every struct field named by exactly one entry, known ⇒ type+constructor+row, container members known, field 253 is a date_time), with readable projections. SDK assignment: every (message, field number) shared with the newest bundled SDK workbook must designate the struct field of the workbook's name and type (harness, own xlsx reader); the 23 entries newer than that workbook are compared with a pinned snapshot." + CORR,
+               "Lean 4 decide +kernel over tables regenerated by reflection on every run + workbook / snapshot comparison + differential correspondence of every profile entry", "6/C15"),
     "C16": chk("Proof: options_transparent (error, panic, bytes pulled, File apart from the two lists, accumulators are identical under every option set — the decoder program does not take the options), logger_irrelevant, lists_only_when_asked, bump_counts (reported count = number of occurrences counted), bump_keys_nodup, unknown_lists_sorted (insertion sort is sorted and a permutation)." + CORR,
                "Lean 4 proof (structure of finalize, counting and sorting lemmas) + differential correspondence under all 8 option sets", "6/C16"),
-    "C18": chk("Partial proof with recorded findings. Proved: invalid_source_untouched, valid_source_copied, csd_speed_slice, csd_distance_partial, accumulate_spec (correct accumulators), gear_bytes, score_halves, event_invalid_untouched, containers_expand, gen_component_fields_exist; counterexample theorems for the three known findings D10 (distance high nibble lost), D11 (accumulator mask 0), D12 (package-level accumulator lifetime)." + CORR,
-               "Lean 4 proof + counterexample theorems + differential correspondence incl. source-value sweeps", "6/C18"),
+    "C18": chk("Partial proof with recorded findings. Proved: invalid_source_untouched, valid_source_copied, csd_speed_slice, csd_distance_partial, accumulate_spec, gear_bytes, score_halves, containers_expand, expand_eq_rules_lap_session_segment (the transcribed expansion equals the generic interpretation of the profile's component rules for lap, session and segment_lap); counterexample theorems for the known findings D10, D11, D12. For record and event the equality with the rule-driven specification is evaluated per decoded message on every run and every deviation must be one of the recorded ones." + CORR,
+               "Lean 4 proof + counterexample theorems + rule-driven specification replay + differential correspondence incl. source-value sweeps", "6/C18"),
 })
 
 CHECKS.update({
-    "C04": chk("Proof: burst_changes_register / burst_detected_bits — two bit streams that agree outside a window of at most 16 bits and differ inside it drive the CRC register to different values from any state (XOR-linearity, leading-bit invariant of the reflected polynomial, injectivity of the zero-input step); burst_detected_bytes (any corruption of one or two adjacent bytes), residue_broken (a stream with residue 0 has a non-zero residue after such a burst); header_crc_agreement (Header.CheckIntegrity and decodeHeader accept or reject the same header values). The link 'Decode/CheckIntegrity accept ⇒ residue of the frame is 0' is checked by the correspondence and the burst sweep (every start bit of the sampled files), its Lean proof is pending." + CORR,
-               "Lean 4 proof (GF(2)-linearity of the shift register over BitVec 16) + header sweep + burst sweep against the real entry points", "6/C04"),
+    "C04": chk("Proof. burst_detected_bits/bytes (two streams agreeing outside a window of at most 16 bits and differing inside it have different CRC registers from any state), accepted_residue_zero (the decoder's running checksum equals the checksum of exactly the bytes consumed on every path of the record phase, so whatever Decode or CheckIntegrity accepts has frame residue 0), accepted_passes_integrity (Decode accepts ⇒ CheckIntegrity accepts), burst_rejected (any accepted stream, corrupted within 16 bits outside the size and data-size fields, is rejected by both), header_crc_agreement (Header.CheckIntegrity and decodeHeader agree on every header value)." + CORR,
+               "Lean 4 proof (GF(2)-linearity of the shift register over BitVec 16; counter-tracking invariant through the decoder programs) + header and burst sweeps against the real entry points", "6/C04"),
     "C17": chk("Proof (integer part kernel-only; float step under an explicit rounding hypothesis): lat_invalid_iff_partial with lat_pole_counterexample (known finding D14: +90° flagged invalid), lng_invalid_iff, semicircles_id, degrees_exact (|s·180| < 2^53 so the float64 product is exact), time_bijection, time_roundtrip, base_time_iff, from_degrees_within_one (two roundings of relative error ≤ 2^-53 followed by truncation stay within one semicircle; the IEEE-754 standard model is a hypothesis of the theorem). The printed-form clause is checked by enumeration only." + CORR,
                "Lean 4 proof (omega; Mathlib linarith/floor lemmas for the rational bound) + Go-side oracle over all 2^32 values (thorough) with model cross-check", "6/C17"),
 })
 
 CHECKS.update({
-    "C05": chk("Partial proof. Proved over the encoder model: encode_ok_finish / encode_frame (what is written is header ++ records ++ little-endian file CRC; File.Header.DataSize, File.Header.CRC for 14-byte headers and File.CRC afterwards equal the written values), encode_residue_zero (the written stream passes the whole-file CRC check), header_residue_zero, header_declares_data_size, encodeScalar_length / encodeString_length (every field occupies exactly the size its definition declares). The record-grammar clause for whole Files is checked on every run by an independent recogniser in the harness (own CRC, own record parser) and by byte equality with the model." + CORR,
-               "Lean 4 proof over the encoder model + byte-exact differential correspondence + independent grammar recogniser", "6/C05"),
-    "C06": chk("Partial proof (per layer). Proved: unsigned_roundtrip, signed_roundtrip, string_roundtrip, time_value_roundtrip — for each kind of in-domain value, what the encoder writes is read back by the decoder's field parser as the same value, in both byte orders (dec_enc: byte-order codec inverse). The composition over whole Files is checked on every run: real Encode then real Decode compared with the model's prediction and with the input under the property's equivalence." + CORR,
-               "Lean 4 proof of per-kind codec inverses + differential round-trip correspondence with equivalence oracle", "6/C06"),
+    "C05": chk("Partial proof. encode_frame / encode_residue_zero / header_residue_zero / header_declares_data_size (shape of the output, sizes and CRCs written back into the File, output passes the whole-file CRC check); encode_one_self_describing (on a well-formed profile what Encode writes for one message is a definition record and a data record of the same local type with, per declared field, exactly the declared number of bytes — writeField_length covers every field kind) and encode_one_read_back (by Framing the decoder reads them back as those records). Not proved: the same for message groups sharing one definition (checked on every run by the independent grammar recogniser in the harness)." + CORR,
+               "Lean 4 proof over the encoder model + framing theorem + byte-exact differential correspondence + independent grammar recogniser", "6/C05"),
+    "C06": chk("Partial proof. Value level: unsigned/signed/string/time round trips through parseFitField; field level: the same through the real writeField and applyField with the definition Encode writes (unsigned_field_roundtrip, signed_field_roundtrip, string_field_roundtrip, time_field_roundtrip); message level: message_roundtrip — for every message of a known type whose valid fields are of those kinds and whose other fields hold the constructor's invalid values, the decoder's field loop run on the data record Encode wrote rebuilds exactly that message. Arrays, local times, coordinates and the composition over the containers of a File are decided by the correspondence run (real Encode then real Decode under the property's equivalence)." + CORR,
+               "Lean 4 proof of codec inverses lifted to fields and messages + differential round-trip correspondence with equivalence oracle", "6/C06"),
     "C07": chk("Partial proof with a recorded finding. Proved: add_preserves_type and init_matches_type (a decoded File's container always matches its file type — the invariant restored by the fix for D6), encode_type_check_passes (Encode cannot hit its nil-container panic on such a File), reencode_counterexample_utf8 (known finding D13: a stream Decode accepts and Encode rejects). The full re-encode/fixpoint statement is checked on every run over every accepted input with a generation-1/2/3 oracle." + CORR,
                "Lean 4 proof of the type/container invariant + counterexample theorem + three-generation differential correspondence", "6/C07"),
 })
